@@ -108,6 +108,21 @@ CHECKS = {
          'from-scratch CPython parse as oracle.',
          'TLC model checking + two-way conformance: TLC-generated instances replayed into pfst, recorded executions '
          'trace-validated by TLC (OffsetTrace)'),
+ 'C13': ('model_checking', '4-C13',
+         'Explicit TLA+ model of mark / pure-AST mutation / reconcile over aliased object heaps, model-checked exhaustively '
+         '(<= 2 mutations, 2 rounds) for sufficiency and monotonicity of the touched-statement bookkeeping, mark invalidation '
+         'and result = working tree; every real reconcile() of TLC-generated histories (<= 3 mutations, <= 2 rounds, trees '
+         '<= 6 statements) and of random corpus mutations is judged by TLC for Sync, structural equality with the '
+         'unparse-normalised user AST, no-change identity, byte-identity of untouched statements incl. comments, and mark '
+         'invalidation.',
+         'TLC model checking + spec-generated histories replayed into pfst + trace validation (ReconcileTrace.tla); oracles '
+         'ast.parse / ast.unparse / plain line inspection'),
+ 'C16': ('model_checking', '4-C16',
+         'TLC model-checks an explicit TLA+ specification of Python scoping rules and of the documented scope API on every '
+         'abstract program within small bounds; CPython symtable and the real pfst are validated against that spec for every '
+         'such program (spec <-> CPython <-> pfst), and on corpus programs through AST ownership rules and a symtable sandwich.',
+         'TLA+/TLC exhaustive enumeration of abstract programs (state dump as case table) + batched TLC trace validation; '
+         'oracle symtable/ast'),
 }
 
 NOT_YET = {}
